@@ -14,12 +14,17 @@ LEVEL_TEXT = ("Coq theorems about the model of the cache + browser logic. Histor
               "(invariant FI: every cached PTR entry of a browsed type with TTL > 1 is in the checker's found list under "
               "the type's channel; carried through every step of the iteration, C04_iteration_resolved_only_after_found); "
               "C04_followup_schedule_invariant - after every iteration every follow-up retransmission is "
-              "try 1..3 and due within the next 500 ms; C04_spec_cache_is_model_cache - the cache chk_C04 judges against is "
+              "try 1..3 and due within the next 500 ms; C04_pending_has_followup_queued (round 7, ALL histories, no "
+              "hypothesis) - an instance that is in pending_resolves has a follow-up retransmission queued, so "
+              "(C04_pending_followup_within_500) its next try is due within 500 ms: the bookkeeping the follow-up clause rests "
+              "on, and what the seeded change C04-m6 breaks; C04_spec_cache_is_model_cache - the cache chk_C04 judges against is "
               "the model's cache. Per response message, for every reachable state outside the executable classes "
               "known_ptr_variant / known_srv_targets: C04_completing_response_resolves_partial - a message that leaves an "
               "instance of a browsed type complete and cached a new/revived record of it yields exactly one "
               "ServiceResolved for it in that handle_response; plus the step theorems (ServiceFound for a new PTR, "
-              "follow-up chain +500 ms x 3, (instance, ANY) then (host, A/AAAA), new round after the chain is over). "
+              "follow-up chain +500 ms x 3, (instance, ANY) then (host, A/AAAA), new round after the chain is over; after fix "
+              "48ec5c0 a try asks only while some cached PTR record points to the instance - has_ptr_to - otherwise the "
+              "chain ends: C04_followup_stops_without_ptr; the checker's expected_followup follows). "
               "The universal statement chk_C04 = true is REFUTED for the faithful model in the four classes that stay "
               "as known findings (one vm_compute witness each: dotted label, record refreshed in its last second, second "
               "SRV target, browse over an expiring PTR - the last found by the proof of clause F in round 5 and confirmed on "
@@ -35,14 +40,17 @@ RULE = ("all partitions/orders/duplications of an instance's record set (PTR, SR
         "lifecycle histories (updates, goodbyes, restarts, stop/re-browse, verify); instance labels with spaces, "
         "backslash, non-ASCII, dots (known finding), hosts whose case differs between SRV target and address owner "
         "(repaired: must resolve), instances under type and subtype PTR; browse started over a cached PTR that is about to "
-        "expire (cached while the type was not browsed: additional section, or beside a browsed subtype's PTR); timer-exact and late schedules; non-trivial = at least one event or follow-up question")
+        "expire; stop_browse inside the follow-up window, browse again, PTR-only again (the follow-up question must come: "
+        "seeded change C04-m6), also with a subtype that shares the instance and stays browsed (cached while the type was not browsed: additional section, or beside a browsed subtype's PTR); timer-exact and late schedules; non-trivial = at least one event or follow-up question")
 TRUSTED = bc.TRUSTED_COMMON
 PARTIAL = ("History-level completeness `wf_history h -> ~Known_C04 h -> chk_C04 (run_history h) = true` is NOT a theorem. "
            "Of viol_C04's failure kinds F04_order (clause F: ServiceResolved only after ServiceFound on that channel) is "
            "excluded over all histories outside the class known_browse_expiring (C04_resolved_only_after_found_partial). "
            "For F04_complete the per-message core is proved (C04_completing_response_resolves_partial, exactly one "
            "ServiceResolved), for the follow-up clauses the schedule invariant over all histories and the step theorems. "
-           "Round 6 (after C05 timeliness) did not reach the remaining kinds; worked out, not proved: F04_complete needs the "
+           "Round 7 added the model-side half of the follow-up clauses (pending => a Resolve is queued, due within 500 ms, "
+           "over all histories); the checker-side half (obligation <-> queued entry) and the other kinds are worked out, "
+           "not proved: F04_complete needs the "
            "invariant 'strongly alive under a browsed type => up on its channel' (kept by: ServiceRemoved only for instances "
            "that are not strongly alive - the C05 safety lemmas; liveness rising only through add_or_update - aou_frame; a NEW "
            "relevant record that leaves the instance alive puts it into `updated`, so the per-message theorem gives the "
@@ -85,6 +93,7 @@ def generate(rng, tier):
         ("twotypes", 30 * k, lambda r, i: bc.gen_special(r, i, "two-types")),
         ("srvtargets", 20 * k, lambda r, i: bc.gen_special(r, i, "srv-targets")),
         ("brexp", 40 * k, lambda r, i: bc.gen_special(r, i, "browse-expiring")),
+        ("stoprebrowse", 120 * k, lambda r, i: bc.gen_special(r, i, "stop-rebrowse")),
         ("long", 3 * k, bc.gen_long),
     ])
 
